@@ -34,6 +34,10 @@ type LVal struct {
 	Fields map[string]*LVal // struct: set fields by thrift name
 	Type   *TypeRef         // the (root) type this value was cast to
 	Item   *EnumItem        // enum: the item bound (nil if none has this value)
+	// Ambig: a container whose element wire type differs from the reader's
+	// declaration; the statement does not say what the reader reports for it
+	// (unset and empty are both accepted), only that nothing else is affected.
+	Ambig bool
 }
 
 // Eval casts a constant expression to a type the way Thrift constants are
